@@ -46,6 +46,20 @@ STRENGTH = {
  "C09-w6-2": ("C09", "op recov and family recovery-proposals-from-neighbouring-oracles-*: honest neighbours propose different missed logs in the same round through the recovery path, with liveness obligations; afterwards the rounds still work"),
  "C18-w6-1": ("C18", "part E: 1 / workers / workers+2 / 3*workers contained pipeline panics in the shared runner, then a healthy check must be executed and Close must leave nothing"),
  "C20-w6-1": ("C20", "families long-negative-broken-then-150-more-blocks and long-reached-then-150-surplus-blocks on the real ProgressTelemetry: Increment must return"),
+ "C02-w7-1": ("C02", "family block-keys-with-missing-members: after a full observation, observations whose block keys lack Hash / Number / are null (decoded values must not depend on earlier decodes)"),
+ "C03-w7-1": ("C03", "C03 now runs the block-history race part (3000 observations built while alternating histories keep arriving), each observation validated by a peer instance"),
+ "C03-w7-2": ("C03", "family byte-limit-cut-then-the-rest-of-the-observation-grows: after a first observation the block history grows to 256 and late proposals arrive; the next observation of the same ordering seed is judged"),
+ "C04-w7-1": ("C04", "the C04 instances get a work-id generator under which a conditional upkeep has several units of work; family conditional-upkeep-twice-under-two-work-ids, random"),
+ "C05-w7-1": ("C05", "family history-coordinated-on-a-higher-block-than-this-round (retained history on block 110 / 101, this round's quorum block 100)"),
+ "C07-w7-1": ("C07", "C07 now runs the cache collector races too (a record lost to ClearExpired releases in-flight work)"),
+ "C08-w7-1": ("C08", "family accepted-again-on-a-higher-block-within-the-lockout: reports accepted 21 min and again 6 min before the work is checked"),
+ "C09-w7-1": ("C09", "families 6- / 7- / 11-conditionals-eligible-at-once with liveness obligations"),
+ "C11-w7-2": ("C11", "TestC11QueueRace: four overlapping polls and an Enqueue on a higher block over a 20,000-record queue, real goroutines"),
+ "C13-w7-2": ("C13", "families batch-panics-first / middle / last / all: a batch fails by a panic inside the pipeline"),
+ "C15-w7-1": ("C15", "the bytes of the last four Encode calls are held with private copies and compared after every later Encode"),
+ "C18-w7-1": ("C18", "v2 cases close-mid-poll: the log provider takes 700 ms per call, Close arrives while a poll is inside it"),
+ "C18-w7-2": ("C18", "panic/<site>/3x6: the provider of one flow panics on six consecutive calls; the flow must resume and keep ticking"),
+ "C19-w7-1": ("C19", "every broadcast block carries a transaction naming the block (a loader); each listener's copy is judged on it"),
  "C14-w4-1": ("C14", "family long-job-idle-then-burst (per-caller start delays): a long job, seconds of idleness, then a burst"),
 }
 res = {}
